@@ -392,6 +392,38 @@ def witnesses():
         for nm, code, exp in oforms:
             body_ = opre % r + "void w() { P p = au::make_quantity_point<U>(R{5}); Q q = au::make_quantity<U>(R{2}); (void)p; (void)q; %s }" % code
             items.append(witness.Item("w:origin:%s/%s" % (nm, r), body_, exp, None, dict(desc="unit of equal size but another origin, %s with rep %s: `%s`" % (nm, r, code))))
+    # "a point where a quantity is required or vice versa", one level up: what NAMES a unit for
+    # quantities (quantity maker, symbol, singular name, constant) is refused wherever a point asks
+    # for its unit, and a point maker wherever a quantity asks; units and same-flavour makers pass
+    spre = ("struct U : decltype(au::Kelvins{} * au::mag<3>()) {}; struct T : decltype(au::Kelvins{} * au::mag<6>()) {}; using R = %s;\n"
+            "using P = au::QuantityPoint<T, R>; using Q = au::Quantity<T, R>;\n")
+    qslots = [("qmaker", "au::QuantityMaker<U>{}"), ("symbol", "au::SymbolFor<U>{}"), ("singular", "au::SingularNameFor<U>{}"), ("constant", "au::Constant<U>{}"),
+              ("lib_kelvins", "au::kelvins"), ("lib_symbol_K", "au::symbols::K"), ("quantity", "q")]
+    pslots = [("pmaker", "au::QuantityPointMaker<U>{}"), ("lib_kelvins_pt", "au::kelvins_pt"), ("point", "p")]
+    members = [("in", "%s.in(%s)"), ("as", "%s.as(%s)"), ("in_rep", "%s.template in<long>(%s)"), ("as_rep", "%s.template as<long>(%s)"),
+               ("coerce_in", "%s.coerce_in(%s)"), ("coerce_as", "%s.coerce_as(%s)"), ("coerce_in_rep", "%s.template coerce_in<long>(%s)"),
+               ("coerce_as_rep", "%s.template coerce_as<long>(%s)")]
+    for r in ("int", "double"):
+        def add(nm, code, exp):
+            body_ = spre % r + "void w() { P p = au::make_quantity_point<T>(R{5}); Q q = au::make_quantity<T>(R{2}); (void)p; (void)q; %s }" % code
+            items.append(witness.Item("w:slot:%s/%s" % (nm, r), body_, exp, None, dict(desc="unit slot of the other flavour, %s with rep %s: `%s`" % (nm, r, code))))
+        for mn, mf in members:
+            for sn, sl in qslots:
+                add("p_%s_%s" % (mn, sn), "(void)%s;" % (mf % ("p", sl)), "reject")
+            for sn, sl in pslots:
+                add("q_%s_%s" % (mn, sn), "(void)%s;" % (mf % ("q", sl)), "reject")
+            add("ctl_p_%s" % mn, "(void)%s; (void)%s; (void)%s;" % (mf % ("p", "U{}"), mf % ("p", pslots[0][1]), mf % ("p", "au::kelvins_pt")), "accept")
+            add("ctl_q_%s" % mn, "(void)%s; (void)%s; (void)%s; (void)%s;" % (mf % ("q", "U{}"), mf % ("q", qslots[0][1]), mf % ("q", qslots[1][1]), mf % ("q", "au::kelvins")), "accept")
+        for sn, sl in qslots:
+            add("p_data_in_%s" % sn, "(void)p.data_in(%s);" % sl.replace("<U>", "<T>"), "reject")
+            add("common_point_unit_%s" % sn, "(void)au::common_point_unit(%s, au::Celsius{});" % sl, "reject")
+            add("make_quantity_point_of_%s" % sn, "(void)au::QuantityPointMaker<U>{}(%s);" % sl, "reject")
+        add("q_data_in_pmaker", "(void)q.data_in(au::QuantityPointMaker<T>{});", "reject")
+        add("ctl_data_in", "(void)p.data_in(T{}); (void)p.data_in(au::QuantityPointMaker<T>{}); (void)q.data_in(T{}); (void)q.data_in(au::QuantityMaker<T>{});", "accept")
+        add("ctl_common_point_unit", "(void)au::common_point_unit(au::QuantityPointMaker<U>{}, au::Celsius{}, au::kelvins_pt);", "accept")
+        add("lib_celsius_pt_in_kelvins", "(void)au::celsius_pt(R{20}).in(au::kelvins);", "reject")
+        add("lib_celsius_pt_as_kelvins", "(void)au::celsius_pt(R{20}).as(au::kelvins);", "reject")
+        add("lib_celsius_qty_in_kelvins_pt", "(void)au::celsius_qty(R{20}).in(au::kelvins_pt);", "reject")
     return items
 
 
@@ -502,7 +534,7 @@ def body(ctx):
         trusted_base=["clang 14 lowering to IR", "opt-14 sroa/inline/simplifycfg", "vlib cells / affine / ordering domains",
                       "(m, o) of library temperature units read from the compiler's constant evaluator; generated units known by construction"],
         evaluations=nconv + ntwo[0] * 10 + len(items), distinct_nontrivial=nconv + ntwo[0] * 10 + len(items),
-        rule="conversion wrapper per (ordered unit pair, rep pair) analysed on a cell partition of the whole source range (integral) or as real affine form (floating); 10 two-parameter wrappers per (unit pair, rep pair); compile-fail witnesses for the non-affine forms named in the statement",
+        rule="conversion wrapper per (ordered unit pair, rep pair) analysed on a cell partition of the whole source range (integral) or as real affine form (floating); 10 two-parameter wrappers per (unit pair, rep pair); compile-fail witnesses for the non-affine forms named in the statement, for direct access through a unit of equal size but another origin, and for unit slots of the other flavour (a quantity maker / symbol / singular name / constant / quantity in every unit-taking member of a point, a point maker / point in every one of a quantity; units and same-flavour makers are the accepted controls)",
         samples=[dict(units=[repr(u) for u in units[:4]]), dict(pair="%s -> %s" % (pairs[0][0].name, pairs[0][1].name))],
         exhaustive=False, point_units=len(units), unit_pairs=len(pairs), conversion_wrappers=nconv, two_param_blocks=ntwo[0],
         two_param_not_permitted=uncompilable[0], w_items=len(items), w_mismatches=nbad, engine_stats=stats))
